@@ -1,4 +1,5 @@
 import RaptorModel.Driver.C18
+import RaptorModel.Driver.C07
 /-!
 `rmdrv <casefile>` — reads one case per line (`<prop> <op> <int> <int> ...`), runs the executable
 model and the decidable specification predicates, prints one verdict line per case:
@@ -9,6 +10,7 @@ open Raptor Raptor.Driver
 def dispatch (prop op : String) (a : Array Int) : Verdict :=
   match prop with
   | "C18" => C18.run op a
+  | "C07" => C07.run op a
   | _ => badCase s!"unknown property {prop}"
 
 def parseLine (line : String) : Option (String × String × Array Int) :=
